@@ -656,31 +656,16 @@ def c16(tier, seed, F):
             install(log)
             try:
                 auto = rnd.random() < 0.5
-                db = TinyFlux(path, auto_index=auto)
-                model = []
+                flush = rnd.random() < 0.6  # also without flush_on_insert: rows may sit in the buffer, but what reaches the file is appended
+                db = TinyFlux(path, auto_index=auto, flush_on_insert=flush)
+                state = dict(model=[])
                 for step in range(rnd.randint(1, 25)):
-                    if rnd.random() < 0.3:
-                        apply_op(db, model, rnd.choice(["get", "contains", "search"]), rnd)
-                    before = builtins.open(path, "rb").read()
-                    log.calls, log.active = [], True
-                    k = rnd.choice([1, 1, 1, 3])
-                    ps = [safe_point(rnd) for _ in range(k)]
-                    if rnd.random() < 0.3:
-                        ps[0].time = T0 - timedelta(seconds=rnd.randint(1, 9))
-                    if k == 1:
-                        db.insert(ps[0])
-                    else:
-                        db.insert_multiple(ps)
-                    log.active = False
-                    model += [pkey(p) for p in ps]
-                    after = builtins.open(path, "rb").read()
-                    n += 1
-                    if not after.startswith(before):
-                        F.note("insert rewrote existing bytes of the file")
-                    reads = [c for c in log.calls if c[0] in ("read", "readline")]
-                    if reads:
-                        F.note("insert read existing data (%d read calls)" % len(reads))
-                    per_point.add(len(log.calls) / k)
+                    try:
+                        n += c16_step(db, state, rnd, log, path, flush, per_point, F)
+                    except Exception as ex:
+                        log.active = False
+                        F.note("an operation raises %s: the file no longer decodes as a database" % type(ex).__name__)
+                        break
                 db.close()
             finally:
                 uninstall()
@@ -689,6 +674,45 @@ def c16(tier, seed, F):
     finally:
         shutil.rmtree(d, ignore_errors=True)
     return n
+
+
+def c16_step(db, state, rnd, log, path, flush, per_point, F):
+    model = state["model"]
+    if rnd.random() < 0.3:
+        apply_op(db, model, rnd.choice(["get", "contains", "search"]), rnd)
+    if rnd.random() < 0.15:
+        model = state["model"] = apply_op(db, model, rnd.choice(["rm", "upd"]), rnd)  # a rewrite in between: the next insert must still append
+    before = builtins.open(path, "rb").read()
+    log.calls, log.active = [], True
+    k = rnd.choice([1, 1, 1, 3])
+    ps = [safe_point(rnd) for _ in range(k)]
+    if rnd.random() < 0.3:
+        ps[0].time = T0 - timedelta(seconds=rnd.randint(1, 9))
+    if k == 1:
+        db.insert(ps[0])
+    else:
+        db.insert_multiple(ps)
+    log.active = False
+    model += [pkey(p) for p in ps]
+    after = builtins.open(path, "rb").read()
+    if not flush:
+        # what is still buffered reaches the file at the next storage read: it must come after the old bytes and decode to the points
+        list(iter(db))
+        after = builtins.open(path, "rb").read()
+        try:
+            got = decode_bytes(after)
+            if got != model:
+                F.note("after an insert without flush_on_insert the file does not decode to the points (%d rows, %d expected)" % (len(got), len(model)))
+        except Exception as ex:
+            F.note("after an insert without flush_on_insert the file is undecodable (%s)" % type(ex).__name__)
+    if not after.startswith(before):
+        F.note("insert rewrote existing bytes of the file")
+    reads = [c for c in log.calls if c[0] in ("read", "readline")]
+    if reads:
+        F.note("insert read existing data (%d read calls)" % len(reads))
+    if flush:
+        per_point.add(len(log.calls) / k)
+    return 1
 
 
 WRITES = ["ins", "insm", "rm", "upd", "rmall", "drop"]
